@@ -145,6 +145,7 @@ def run(tier, replay=None):
                 cases.append(mk(iid, b, inp, 10, 1, dirty))
         history = []; recs = []
         imgwords = {}; nimg = {}
+        dropped = [(im, r0) for im, r0 in zip(images, first) if r0['status'] not in ('exit', 'limit') or r0['steps'] > 60000]
         for iid, b, inp, s in images:
             hdr = struct.unpack('<I', b[:4])[0]
             ws = []
@@ -154,6 +155,14 @@ def run(tier, replay=None):
                     ws.append([k, w])
             imgwords[iid] = ws
             nimg[iid] = hdr
+        # images that the loop above left out because their first run did not end in an exit (it threw, or was refused by the recorder) are
+        # still judged once against HexISA: a run that stops where the definition goes on is a finding, not a reason to look away
+        for (iid, b, inp, s_), r0 in dropped:
+            if r0['status'] in ('throw', 'unsafe', 'cut'):
+                text = bytes.fromhex(r0['text'])
+                recs.append({'id': "%s|%s|mc0|t0|first" % (iid, bytes(inp).hex()), 'img': imgwords[iid], 'imgwords': nimg[iid], 'input': list(inp), 'traced': False,
+                             'obs': {'status': r0['status'], 'ret': r0['ret'], 'steps': r0['steps'], 'rd': r0['rd'], 'fout': r0['fout'], 'out': [[0, x] for x in text], 'calls': []}})
+        chk.set("images_whose_first_run_did_not_exit", len(dropped))
         for perturb in (None, 85, 170):
             res = sim(cases, perturb, "p2_%s" % perturb)
             for c, r in zip(cases, res):
